@@ -157,7 +157,7 @@ CLAIMED['C19'] = {
              'evalX value of the expression built by GenerateModel.get_nested_logit equals that of models.lognested, and get_cross_nested_logit that of models.logcnl, '
              'on the full choice set (T19g, T19h; C05/C06 builders reused; Model/SamplingMev.v compared node for node with the Python trees by stream full, modulo the '
              'iteration order of BelongsTo sets). Hypotheses: nest parameters != 0, alphas > 0, distinct nest names, the flat row holding the columns established by '
-             'T19a-T19c (checked per case by the oracles of the stream), nests inside the MEV partition; for the cross-nested logit a numeric nest parameter must be '
+             'T19a-T19c (checked per case by the oracles of the stream), nests inside the MEV partition, the full model accepted by its validators (which gives pairwise-disjoint non-empty nests each listing an alternative once; a repetition is refused, T19g_nest_repeating_an_alternative_refused, and a corpus witness turns an accepted repetition into a VIOLATION); for the cross-nested logit a numeric nest parameter must be '
              'one on which Python double arithmetic is exact (1/mu - 1 against (1 - mu)/mu; trivial for Expression parameters).'),
     'note': KERNEL + 'numpy/pandas sampling modelled as an arbitrary oracle; the ast extractor lib/impl/c19_gen.py; the harness float formula evaluator at '
             'relative 1e-9; the cythonbiogeme engine for both sides of the likelihood comparison.',
